@@ -146,11 +146,13 @@ public:
      */
     template<typename ... Args>
     suspend_point<bool> push(Args && ... args) {
+        COCLS_VERIF_POINT("q_lock");
         std::unique_lock lk(_mx);
         if (!_awaiters.empty()) {
             promise<T> p = std::move(_awaiters.front());
             _awaiters.pop();
             lk.unlock();
+            COCLS_VERIF_POINT("q_res");
             return p(std::forward<Args>(args)...);
         } else {
             _queue.emplace(std::forward<Args>(args)...);
@@ -165,6 +167,7 @@ public:
      * @retval false queue is not empty
      */
     bool empty() {
+        COCLS_VERIF_POINT("q_lock");
         std::lock_guard _(_mx);
         return _queue.empty();
     }
@@ -174,6 +177,7 @@ public:
      * @return count of waiting items
      */
     std::size_t size() {
+        COCLS_VERIF_POINT("q_lock");
         std::lock_guard _(_mx);
         return _queue.size();
     }
@@ -196,6 +200,7 @@ public:
      */
     future<T> pop() {
         return [&](auto promise) {
+            COCLS_VERIF_POINT("q_lock");
             std::unique_lock lk(_mx);
             if (_queue.empty()) {
                 _awaiters.emplace(std::move(promise));
@@ -221,11 +226,13 @@ public:
      * @retval false nobody is awaiting
      */
     suspend_point<bool> unblock_pop(std::exception_ptr e) {
+        COCLS_VERIF_POINT("q_lock");
         std::unique_lock lk(_mx);
         if (_awaiters.empty()) return false;
         promise<T> p = std::move(_awaiters.front());
         _awaiters.pop();
         lk.unlock();
+        COCLS_VERIF_POINT("q_res");
         return p.set_exception(e);        
     }
 
@@ -272,11 +279,13 @@ public:
      */
     template<typename ... Args>
     future<void> push(Args && ... args) {
+        COCLS_VERIF_POINT("q_lock");
         std::unique_lock lk(this->_mx);
         if (!this->_awaiters.empty()) {
             promise<T> p = std::move(this->_awaiters.front());
             this->_awaiters.pop();
             lk.unlock();
+            COCLS_VERIF_POINT("q_res");
             p(std::forward<Args>(args)...);
             return future<void>::set_value();
         } else {
@@ -297,6 +306,7 @@ public:
     ///Pops item returns promise
     future<T> pop() {
         return [&](auto promise) {
+            COCLS_VERIF_POINT("q_lock");
             std::unique_lock lk(this->_mx);
             if (this->_queue.empty()) {
                 this->_awaiters.emplace(std::move(promise));
@@ -313,6 +323,7 @@ public:
                     auto p = std::move(front.second);
                     _blocked.pop();
                     lk.unlock();
+                    COCLS_VERIF_POINT("q_res");
                     p();
                 } else {
                     lk.unlock();
@@ -335,11 +346,13 @@ public:
      *
      */
     suspend_point<bool> unblock_push(std::exception_ptr e) {
+        COCLS_VERIF_POINT("q_lock");
         std::unique_lock lk(this->_mx);
         if (_blocked.empty()) return false;
         auto front = std::move(_blocked.front());
         _blocked.pop();
         lk.unlock();
+        COCLS_VERIF_POINT("q_res");
         return front.second.set_exception(e);
     }
 
